@@ -495,6 +495,8 @@ impl Engine {
         if !is_clean_op && out.oc != Oc::Ok && after.leaves != before_s.leaves {
             // representation-level clause that holds in every state: a call that returns an error changes no leaf entry
             self.viol("C02", &format!("{}|got={:?}|failed-call-changed-a-leaf-entry-(reduced-oracle)", op, out.oc), &st.hist, Some(ai), "");
+            // ... and with it the translations no longer follow the history of *successful* calls
+            self.viol("C01", &format!("{}|got={:?}|a-call-that-failed-changed-what-addresses-translate-to-(reduced-oracle)", op, out.oc), &st.hist, Some(ai), "");
             self.viol("C11", &format!("{}|got={:?}|a-leaf-mapping-changed-but-no-flush-token-was-returned", op, out.oc), &st.hist, Some(ai), "");
             clean = false;
         }
